@@ -269,6 +269,9 @@ def r17_4(ctx, rc):
             rc.ok({'order': key}, key=key)
     if n < 3:
         raise AnalysisError('only %d callers of the appender' % n)
+    # every started operation is appended on every exit
+    from .c01 import r1_2
+    r1_2(ctx, rc)
 
 
 def _flag_store(sn):
